@@ -365,8 +365,8 @@ pub fn run(tier: Tier, replay: Option<&J>) -> i32 {
     let start = Instant::now();
     let fam = family();
     let k = match tier {
-        Tier::Quick => 3,
-        Tier::Thorough => 4,
+        Tier::Quick => 4,
+        Tier::Thorough => 5,
     };
     let only = replay.and_then(|r| r["set"].as_str()).map(|s| s.to_string());
     let subs = subsets(fam.len(), k);
